@@ -14,6 +14,7 @@ import rustgen
 VERIF = os.path.dirname(os.path.dirname(os.path.abspath(__file__)))
 WORK = os.path.join(VERIF, "work")
 ETMODEL = os.path.join(VERIF, "lean", ".lake", "build", "bin", "etmodel")
+ETTRANS = os.path.join(VERIF, "lean", ".lake", "build", "bin", "ettrans")
 NBINS = 16
 
 OP_PROPERTY = {
@@ -156,11 +157,23 @@ def next_op_after(ops_path, last):
     return None
 
 
-def run_model(ops_path):
-    p = subprocess.run([ETMODEL], stdin=open(ops_path), capture_output=True, text=True)
+def run_model(ops_path, exe=None):
+    p = subprocess.run([exe or ETMODEL], stdin=open(ops_path), capture_output=True, text=True)
     if p.returncode != 0:
-        raise RuntimeError("etmodel failed: " + p.stderr[-2000:])
+        raise RuntimeError(os.path.basename(exe or ETMODEL) + " failed: " + p.stderr[-2000:])
     return p.stdout.splitlines()
+
+
+def translated_column(lines):
+    """{(sid, opid): T value} from the output of ettrans"""
+    out = {}
+    for l in lines:
+        i = l.rfind(" T=")
+        if i < 0:
+            continue
+        t = l.split(" ", 2)
+        out[(t[0], t[1])] = l[i + 3:]
+    return out
 
 
 def split_ms(rest):
@@ -169,7 +182,7 @@ def split_ms(rest):
     return rest[2:i], rest[i + 3:]
 
 
-def run_stage(corpus, tier, profile="dev", tag=None, log=print):
+def run_stage(corpus, tier, profile="dev", tag=None, log=print, translated=True):
     """returns a result dict (JSON-serialisable)"""
     t0 = time.time()
     tag = tag or tier
@@ -212,8 +225,11 @@ def run_stage(corpus, tier, profile="dev", tag=None, log=print):
     with ThreadPoolExecutor(max_workers=16) as ex:
         impl_f = [ex.submit(run_bin, os.path.join(target_dir, prof_dir, f"b{k}"), ops_paths[k]) for k in range(len(bins))]
         model_f = [ex.submit(run_model, ops_paths[k]) for k in range(len(bins))]
+        use_t = translated and os.path.exists(ETTRANS)
+        trans_f = [ex.submit(run_model, ops_paths[k], ETTRANS) for k in range(len(bins))] if use_t else []
         impl = [f.result() for f in impl_f]
         model = [f.result() for f in model_f]
+        trans = [translated_column(f.result()) for f in trans_f] if use_t else None
     # model verdicts for subjects that failed to compile
     cf_subjects = [s for s in subjects if s.sid in compile_fail]
     model_cf = {}
@@ -227,7 +243,7 @@ def run_stage(corpus, tier, profile="dev", tag=None, log=print):
             if len(t) >= 3 and t[1] == "DECL":
                 model_cf[t[0]] = t[2]
     by_sid = {s.sid: s for s in subjects}
-    res = compare(bins, ops, impl, model, by_sid)
+    res = compare(bins, ops, impl, model, by_sid, trans)
     res["compile_fail"] = [{"sid": sid, "error": (err or "")[:1500], "model": model_cf.get(sid, "?"),
                             "decl": by_sid[sid].rust_decl(), "note": by_sid[sid].note} for sid, err in compile_fail.items()]
     res["n_subjects"] = len(subjects)
@@ -250,8 +266,10 @@ def run_stage(corpus, tier, profile="dev", tag=None, log=print):
     return res
 
 
-def compare(bins, ops, impl, model, by_sid):
+def compare(bins, ops, impl, model, by_sid, trans=None):
     per_prop = {}
+    translated_defects = []   # impl == spec but the translated template (Generated/Templates.lean) gives something else
+    n_translated = 0
     mismatches = []       # impl != spec  (property violations)
     model_defects = []    # impl == spec but model != spec
     transcripts = {}      # sid -> {optext -> impl result}   (for C09 / C18 grouping)
@@ -305,20 +323,28 @@ def compare(bins, ops, impl, model, by_sid):
                 elif m != sp:
                     model_defects.append({"sid": s.sid, "op": optext, "impl": im, "model": m, "spec": sp,
                                           "decl": s.rust_decl(), "note": s.note})
+                if trans is not None:
+                    tv = trans[k].get((s.sid, opid))
+                    if tv is not None:
+                        n_translated += 1
+                        if im == sp and tv != im:
+                            translated_defects.append({"sid": s.sid, "op": optext, "impl": im, "model": tv, "spec": sp,
+                                                       "decl": s.rust_decl(), "note": s.note})
     for p in per_prop.values():
         p["distinct"] = len(p["distinct"])
     bad_sids = []
-    for m in mismatches + model_defects:
+    for m in mismatches + model_defects + translated_defects:
         if m["sid"] not in bad_sids:
             bad_sids.append(m["sid"])
     from subject import to_json
     bad_subjects = {sid: to_json(by_sid[sid]) for sid in bad_sids[:100]}
-    for m in mismatches + model_defects:
+    for m in mismatches + model_defects + translated_defects:
         m["nvariants"] = len(by_sid[m["sid"]].variants)
         if len(m.get("decl", "")) > 3000:
             m["decl"] = m["decl"][:3000] + "\n…"
     return {"per_prop": per_prop, "mismatches": mismatches[:5000], "n_mismatches": len(mismatches),
-            "model_defects": model_defects[:2000], "bad_subjects": bad_subjects,
+            "model_defects": model_defects[:2000], "translated_defects": translated_defects[:2000],
+            "n_translated_ops": n_translated, "bad_subjects": bad_subjects,
             "transcripts": transcripts, "model_tables": model_tables, "aborted": [list(a) for a in aborted], "n_ops": n_ops}
 
 
